@@ -1505,8 +1505,16 @@ impl World {
         let ra = cs.conn.remote_address();
         let rid = self.addr_id(ra);
         let last = self.trace.len();
+        let extra = [
+            st.frame_tx.path_challenge as i128,
+            st.frame_tx.path_response as i128,
+            st.frame_tx.ping as i128,
+            st.frame_rx.path_challenge as i128,
+            st.frame_rx.path_response as i128,
+        ];
         self.trace.push(v);
         self.trace[last].push(rid);
+        self.trace[last].extend(extra);
     }
 
     fn drain_tp_log(&mut self) {
